@@ -242,6 +242,13 @@ def gen_cases(ctx):
         o = worlds.gen_opts(rng, allow=("repeat", "j", "verbose", "stop"))
         if rng.random() < 0.2:
             make_flaky(rng, w, o)
+        r = rng.random()
+        if r < 0.1 and not o.get("stopOnError"):
+            # the totals do not depend on where the process happens to stand when a layer is handed to a subprocess
+            worlds.shape_relpath_chdir(rng, w, o)
+        elif r < 0.25:
+            # ... nor on layer names that contain one another (each subprocess runs its own layer only)
+            worlds.shape_substring_names(rng, w, o, parallel=rng.random() < 0.5)
         cases.append(cw.Case(w, o))
     return cases
 
